@@ -340,6 +340,8 @@ def run(chk, prog, tier):
     from . import join_common, scan_common
     join_common.check_constraint_eval(chk, prog)
     scan_common.check_scan_batches(chk, prog, floor=13)
+    from . import c06
+    c06.check_index_siblings(chk, prog)
 
 
 FAST_SUBSET_TABLE = {
